@@ -221,6 +221,9 @@ func (p *Parser) parse(path string, imported bool) (Program, error) {
 		}
 		path = pathTemp
 	}
+	// An absolute path is cleaned as well (/d/./b.tsh), otherwise an import cycle is not detected
+	// because the paths are compared by their spelling.
+	path = filepath.Clean(path)
 
 	// Make sure path exists.
 	if _, err := os.Stat(path); err != nil {
